@@ -44,7 +44,7 @@ def main():
         for p in props.split(","):
             r = subprocess.run(["/venv/bin/python", "harness/vcheck.py", "--property", p, "--tier", a.tier], env=env, cwd=VERIF,
                                stdout=subprocess.PIPE, stderr=subprocess.STDOUT, text=True)
-            lines = r.stdout.strip().splitlines()
+            lines = [x for x in r.stdout.splitlines() if x.strip()]
             verdict = "DETECTED" if r.returncode == 1 else ("missed" if r.returncode == 0 else "MACHINERY(%d)" % r.returncode)
             print("%s %s %s :: %s" % (os.path.basename(os.path.dirname(os.path.abspath(patch))), p, verdict, (lines[-1] if lines else "")[:160]))
             for l in lines:
